@@ -122,11 +122,10 @@ def inlined(F, body, pred, depth=2, _stack=()):
         cb2 = inlined(F, cb, pred, depth - 1, _stack + (body.path,))
         lo = len(locals_)
         bo = len(blocks)
-        for l in cb2.locals:
+        for li, l in enumerate(cb2.locals):
             l2 = dict(l)
-            # keep user names distinguishable
-            if l2.get("name"):
-                l2["name"] = l2["name"]
+            if 1 <= li <= cb2.arg_count:
+                l2["inl_param"] = True      # bound once to the call's argument
             locals_.append(l2)
         # continuation block: forward the callee's return place to the call destination
         cont = bo + len(cb2.blocks)
